@@ -208,11 +208,6 @@ let run_case (line : string) : string =
               k, lift1 (fun x -> destroy_block ss x (nat_of_int i) draws) mslots.(k) draws, "-"
           | "C" ->
               let k = nexti () in
-              (match mslots.(k) with
-               | [x] ->
-                   (* the hypothesis of cse_wf, evaluated when it is cheap (cubic in the number of parameters) *)
-                   if List.length (params_of x.i_gen) <= 8 then flag "swo" (params_swo_b x.i_gen)
-               | _ -> ());
               k, lift1 (fun x -> match cse x with Some y -> Some (y, draws) | None -> None) mslots.(k) draws, "-"
           | _ -> failwith ("op " ^ op) in
         (* oracle: well-formedness of what the implementation produced *)
